@@ -629,10 +629,10 @@ class Arc(Entity):
             # we don't need the angular span as
             # it's indicated as a closed circle
             fit = self.center(vertices, return_normal=False, return_angle=False)
-            return np.pi * fit.radius * 4
+            return np.pi * fit.radius * 2
         # get the angular span of the circular arc
         fit = self.center(vertices, return_normal=False, return_angle=True)
-        return fit.span * fit.radius * 2
+        return fit.span * fit.radius
 
     def discrete(self, vertices, scale=1.0):
         """
